@@ -233,10 +233,16 @@ pub fn run(args: &Args, rep: &mut Report) {
     let cases: Vec<Case> = all_cases(&raw, &subs, dense).into_iter().enumerate().filter(|(i, _)| args.mine(*i)).map(|(_, c)| c).collect();
     rep.set_meta("bounds", json!(format!("{} faults in this run's shards; listing orders: {}", cases.len(), if dense { "all rotations x reversal of the index listing" } else { "insertion order and reversed" })));
     let threads = 48;
-    let verdicts = par_map(cases.len(), threads, |i| evaluate(&raw, &other, &subs[cases[i].subject], &cases[i], dense));
-    for (c, v) in cases.iter().zip(verdicts) {
-        rep.inc("cases");
-        judge(&raw, &subs, c, v, rep);
+    // evaluated in chunks so that the wall-clock cap can stop the enumeration between chunks
+    for chunk in cases.chunks(4000) {
+        if rep.over_budget() {
+            break;
+        }
+        let verdicts = par_map(chunk.len(), threads, |i| evaluate(&raw, &other, &subs[chunk[i].subject], &chunk[i], dense));
+        for (c, v) in chunk.iter().zip(verdicts) {
+            rep.inc("cases");
+            judge(&raw, &subs, c, v, rep);
+        }
     }
 }
 
